@@ -278,6 +278,9 @@ def r4_direction_domain(chk, F):
                 chk.ob(rule, inst, "UTC->TAI-adds-the-offset", okd, "Duration-level linear form", detail=None if okd else repr(TR)[:300])
                 # key domain: elapsed UTC == self.duration
                 okk = D.implies_eq(st2, Tkey, T0)
+                tag = scale_name(eng, st, key.fs[1])
+                chk.ob(rule, inst, "lookup-epoch-tagged-TAI(count-read-as-is)", tag == "TAI", "E5 scale-domain tag (leap_seconds_with reads epoch.to_tai_duration())",
+                       detail=None if tag == "TAI" else {"tagged": tag})
                 chk.ob(rule, inst, "lookup-key-is-elapsed-UTC", okk, "E5 scale-domain tag", detail=None if okk else repr(Tkey)[:300])
             else:
                 okd = D.implies_eq(st2, TR, T0 + K - L)
@@ -285,6 +288,12 @@ def r4_direction_domain(chk, F):
                 # key must be an elapsed-UTC count, i.e. (TAI count - offset), not the TAI count itself
                 tai = T0 + K
                 is_tai = D.implies_eq(st2, Tkey, tai)
+                # leap_seconds_with reads the key as `epoch.to_tai_duration()` (C06.R2): the epoch handed to the lookup must carry the
+                # scale its count is expressed in - a TAI count tagged UTC would be converted a second time
+                tag = scale_name(eng, st, key.fs[1])
+                okt = (tag == "TAI") if is_tai else True
+                chk.ob(rule, inst, "lookup-epoch-scale-tag-matches-its-count", okt, "E5 scale-domain tag",
+                       detail=None if okt else {"count": "TAI count of the epoch", "tagged": tag})
                 chk.ob(rule, inst, "lookup-key-is-elapsed-UTC", not is_tai, "E5 scale-domain tag (contradiction with the UTC->TAI site)",
                        detail=None if not is_tai else {"key": "TAI count of the epoch", "why": "the table thresholds are UTC counts: in the delta_at seconds before each "
                                                       "leap second the TAI count is already past the threshold, so the new offset is subtracted one leap second early "
